@@ -142,6 +142,9 @@ def descriptor_strings(tier, rnd):
     extra = ["", "'''", '"""', "'''\"\"\"", "a'''b\"\"\"c", "\n;", "x\n;y", ";\n;", "\\\n", "a\\\n", "a\\  \nb", "> \\\nx", "\\\\\n", "ab\\", "a\n\nb", "\n", "\n\n", " \n ", "a \nb ", "?", ".", "1.5(2)", "data_x", "loop_", "_x", "$", "[a]",
              "a'b", 'a"b', "a' b", "'a", "a'", '"a', 'a"', "'\n", "\n'", "''\n'", "a\n'''", '"""\n', "x'''\ny\"\"\"\nz", ("a" * 2047 + "\n") * 3, ("ab " * 700), "𝄞" * 1030, ("é" * 2048), ("é" * 2049), "a" * 2041 + "\n;b", ";" * 2050, ";" * 2047,
              "'" * 2046, '"' * 2047, "'\"" * 1030, "\\" * 2049, "a" * 2040 + "\\", " " * 2049, "a " * 1030 + "\\", "\t" * 5 + "a" * 2044,
+             # one-line values that can only stand in a text field (both kinds of quote, or both triple delimiters) and end in a
+             # backslash, possibly followed by blanks: the first line of the field must not read as a fold / prefix signature
+             "a'b\"c\\", "it's a \"path\": C:\\", "a'b\"c\\  ", "a'b\"c\\\t", "a'''b\"\"\"c\\", "a'''b\"\"\"c\\ ", "'\"\\", "a'b\"c\\\\", "> a'b\"c\\",
              # long lines without blanks: the writer has to fold hard at the target length (2040) - what stands there matters
              ] + HARDFOLD
     out += extra
